@@ -13,6 +13,7 @@ From SV Require Import Gen.PixelCodecs_gen Gen.VtfLayout_gen Fmt.VtfGenProofs.
 From SV Require Import Fmt.VtfFrameSM Fmt.VtfFrameSMProofs Gen.VtfFrameSM_gen.
 From SV Require Import Bin.Struct Fmt.VtfContainer Fmt.VtfContainerProofs Gen.VtfContainer_gen.
 From SV Require Import Fmt.VtfSides Fmt.VtfSidesProofs.
+From SV Require Import Fmt.VtfWholeFile Fmt.VtfWholeFileProofs.
 Import ListNotations.
 
 (** ** Pixels *)
@@ -311,3 +312,78 @@ Theorem c15_face_major_read_refuted :
   /\ nth_error (what_read_gets good_order [VMipRev; VSide; VFrame] good_sidescfg 5 5 2) 1
      = Some ({| k_frame := 1; k_side := 0; k_mip := 0 |}, [10%N]).
 Proof. exact face_major_read_refuted. Qed.
+
+(** ** Round 3: the whole file *)
+(** The container as one statement (was: an executable model tied by correspondence only).  [encode_file] is the file as
+    VTF.save lays it out, [decode_file] what VTF.read gets out of it; [F] are the record formats and [G] the flag
+    expressions regenerated from the source ([fmts_wf F], [flags_ok G]: instance obligations).  For every file of version
+    7.3 or later whose values fit their fields ([vfile_fits]: ids are 3 bytes and not a reserved id, flags a byte, values,
+    offsets and lengths 32 bits, the 15 header values fit the header record): the reader gets the version, the header
+    values with the real header size, the depth, every resource in order with bit 0x02 of the flags normalised (inline
+    values exact, data blocks byte for byte), the particle sheet, and the offsets of the thumbnail and of the first
+    frame - and these offsets are exactly where the thumbnail and the frames are. *)
+Theorem c15_whole_file_73 : forall F G v low_size file,
+  fmts_wf F = true -> flags_ok G = true -> (3 <= v_minor v)%Z -> vfile_fits F G v = true ->
+  encode_file F G v = Some file ->
+  decode_file F G low_size file
+  = Some (v_minor v, set_header_size (v_header v) (hs73 F v), v_depth v, map norm (v_res v), v_sheet v, low_off73 F v, high_off73 F v)
+  /\ exists pre, file = pre ++ v_low v ++ List.concat (v_high v) /\ List.length pre = low_off73 F v.
+Proof. exact whole_file_73. Qed.
+(** Before 7.3: no directory, 15 bytes of padding, the depth only in 7.2 (else it must be 1); read() computes the offsets
+    from the header size it reads and the size of the thumbnail. *)
+Theorem c15_whole_file_pre73 : forall F G v file,
+  fmts_wf F = true -> (v_minor v < 3)%Z -> vfile_fits_old F v = true ->
+  encode_file F G v = Some file ->
+  decode_file F G (List.length (v_low v)) file
+  = Some (v_minor v, set_header_size (v_header v) (hs_old F v), v_depth v, [], None, hs_old F v, (hs_old F v + List.length (v_low v))%nat)
+  /\ exists pre, file = pre ++ v_low v ++ List.concat (v_high v) /\ List.length pre = hs_old F v.
+Proof. exact whole_file_pre73. Qed.
+(** Container, side lists, loop order and block layout composed: a file whose image part is the frames in the order of
+    save()'s loop nest over the sides of the version WRITTEN.  read() - walking its own loop nest over the sides of the
+    version it finds, from the first-frame offset it decodes - finds for every (frame, side, mipmap) exactly the bytes
+    save() produced for that key, the thumbnail at the decoded thumbnail offset, and the metadata as above. *)
+Theorem c15_whole_file_with_frames_73 : forall F G v low_size file c so ro,
+  fmts_wf F = true -> flags_ok G = true -> (3 <= v_minor v)%Z -> vfile_fits F G v = true ->
+  sides_ok c = true -> lorder_eqb so ro = true ->
+  forall envmap object depth mips frames (content : key -> list N) (size : nat -> nat),
+    (forall k, List.length (content k) = size (k_mip k)) ->
+    v_high v = map content (walk so mips frames (save_sides c envmap object (v_minor v) depth) key0) ->
+    encode_file F G v = Some file ->
+    decode_file F G low_size file
+    = Some (v_minor v, set_header_size (v_header v) (hs73 F v), v_depth v, map norm (v_res v), v_sheet v, low_off73 F v, high_off73 F v)
+    /\ slice file (low_off73 F v) (List.length (v_low v)) = v_low v
+    /\ Forall (fun ok => slice file (fst ok) (size (k_mip (snd ok))) = content (snd ok))
+              (read_table ro mips frames (read_sides c envmap (v_minor v) depth) size (high_off73 F v)).
+Proof. exact whole_file_with_frames_73. Qed.
+Theorem c15_whole_file_with_frames_pre73 : forall F G v file c so ro,
+  fmts_wf F = true -> (v_minor v < 3)%Z -> vfile_fits_old F v = true ->
+  sides_ok c = true -> lorder_eqb so ro = true ->
+  forall envmap object depth mips frames (content : key -> list N) (size : nat -> nat),
+    (forall k, List.length (content k) = size (k_mip k)) ->
+    v_high v = map content (walk so mips frames (save_sides c envmap object (v_minor v) depth) key0) ->
+    encode_file F G v = Some file ->
+    decode_file F G (List.length (v_low v)) file
+    = Some (v_minor v, set_header_size (v_header v) (hs_old F v), v_depth v, [], None, hs_old F v, (hs_old F v + List.length (v_low v))%nat)
+    /\ slice file (hs_old F v) (List.length (v_low v)) = v_low v
+    /\ Forall (fun ok => slice file (fst ok) (size (k_mip (snd ok))) = content (snd ok))
+              (read_table ro mips frames (read_sides c envmap (v_minor v) depth) size (hs_old F v + List.length (v_low v))%nat).
+Proof. exact whole_file_with_frames_pre73. Qed.
+(** non-vacuity: the formats of the pinned tree are well formed, the example files (7.4 with an inline resource, a data
+    resource, a sheet; 7.2) fit, are encoded (144 / 88 bytes) and decoded as stated *)
+Example c15_whole_file_inhabited :
+  fmts_wf std_fmts = true /\ vfile_fits std_fmts good_flagcfg (ex_file 4) = true /\ vfile_fits_old std_fmts (ex_file 2) = true
+  /\ option_map (@List.length N) (encode_file std_fmts good_flagcfg (ex_file 4)) = Some 144%nat
+  /\ option_map (@List.length N) (encode_file std_fmts good_flagcfg (ex_file 2)) = Some 88%nat
+  /\ option_map (decode_file std_fmts good_flagcfg 2) (encode_file std_fmts good_flagcfg (ex_file 4))
+     = Some (Some (4%Z, set_header_size ex_header 120, 1%Z,
+                   [([67; 82; 67]%N, 66%Z, RInline 305419896); ([75; 86; 68]%N, 64%Z, RData [1; 2; 3; 4; 5]%N)],
+                   Some [9; 8; 7]%N, 136%nat, 138%nat)).
+Proof. exact whole_file_inhabited. Qed.
+(** the shape of seeded fault c15_4 on a whole file: the data resource with flags 0x42 comes back as the inline value
+    120 - the offset of its data block *)
+Theorem c15_whole_file_masked_flags_refuted :
+  flags_ok masked_flagcfg = false
+  /\ option_map (fun r => match r with Some (_, _, _, res, _, _, _) => res | None => [] end)
+       (option_map (decode_file std_fmts masked_flagcfg 2) (encode_file std_fmts masked_flagcfg (ex_file 4)))
+     = Some [([67; 82; 67]%N, 66%Z, RInline 305419896); ([75; 86; 68]%N, 2%Z, RInline 120)].
+Proof. exact whole_file_masked_flags_refuted. Qed.
